@@ -35,6 +35,28 @@ theorem net_push_table :
      (23, 2, 2), (24, 3, 3), (25, 3, 3), (26, 1, 1), (27, 1, 1), (28, 3, 3), (29, 4, 4),
      (30, 1, 1), (31, 1, 1), (32, 2, 2), (33, 2, 2), (34, 1, 1), (36, 2, 2)] := by decide
 
+/-- The stack effect of every case of the interpreter switch that touches the backtracking stack, as read from
+    the current runner.go: `(opcode, 0 forward / 1 Back / 2 Back2, most slots pushed, fewest and most slots popped
+    explicitly)`.  Any edit of a case body that changes what it pushes or pops breaks this obligation, which
+    forces the weights and the invariant to be re-examined. -/
+theorem case_fingerprints :
+    (Opcodes.cases.filter (fun c => c.maxPush != 0 || c.maxPop != 0)).map
+      (fun c => (c.op, c.flag, c.maxPush, c.minPop, c.maxPop)) =
+    [(3, 0, 3, 0, 0), (3, 1, 3, 2, 2), (4, 0, 3, 0, 0), (4, 1, 3, 2, 2), (5, 0, 3, 0, 0), (5, 1, 3, 2, 2),
+     (6, 0, 3, 0, 0), (6, 1, 3, 2, 2), (7, 0, 3, 0, 0), (7, 1, 3, 2, 2), (8, 0, 3, 0, 0), (8, 1, 3, 2, 2),
+     (23, 0, 2, 0, 0), (23, 1, 0, 1, 1), (24, 0, 3, 0, 0), (24, 1, 2, 2, 2), (24, 2, 0, 1, 1),
+     (25, 0, 3, 0, 0), (25, 1, 3, 2, 2), (25, 2, 0, 2, 2), (26, 0, 1, 0, 0), (27, 0, 1, 0, 0),
+     (28, 0, 3, 0, 0), (28, 1, 3, 1, 1), (28, 2, 0, 2, 2), (29, 0, 4, 0, 0), (29, 1, 2, 3, 3), (29, 2, 0, 1, 1),
+     (30, 0, 1, 0, 0), (31, 0, 1, 0, 0), (32, 0, 2, 0, 0), (32, 1, 0, 1, 1), (33, 0, 2, 0, 0), (33, 1, 0, 1, 1),
+     (34, 0, 1, 0, 0), (36, 0, 2, 0, 0), (36, 1, 0, 1, 1)] := by decide
+
+/-- The literals of the allocation model are those of runner.go: `ensureStorage` loops while
+    `Runtrackpos < runtrackcount*4` around `growTrack`, `initMatch` allocates `max(64, 8*runtrackcount)`, `goTo` checks
+    storage when `newpos <= codepos`, `backtrack` when `newpos < codepos` (model: `ensure`, `alloc0`, `checks`). -/
+theorem storage_constants :
+    Opcodes.ensureFactor = 4 ∧ Opcodes.allocFactor = 8 ∧ Opcodes.allocMin = 64 ∧
+    Opcodes.goToGuard = "<=" ∧ Opcodes.backtrackGuard = "<" := by decide
+
 /-- Shape of the case bodies that lets a case be read as `go k p t` / `pop`: `backtrack()` pops exactly
     the saved code position; within a case all pops come before all pushes; a case that pushes never
     ends in `backtrack()`; only UpdateBumpalong touches `runtrack` directly and it pushes nothing; `trackto`
